@@ -445,10 +445,15 @@ fn render_scenario(o: &mut String, ind: &str, sc: &Value) {
         }
         let cells = st["cells"].as_array().unwrap();
         if !cells.is_empty() {
-            o.push_str(&format!(
-                "{ind}    | {} |\n",
-                cells.iter().map(render_toks).collect::<Vec<_>>().join(" | ")
-            ));
+            // several rows: two cells per row if their number is even, one
+            // per row otherwise (the projection flattens the table again)
+            let w = if cells.len() % 2 == 0 { 2 } else { 1 };
+            for row in cells.chunks(w) {
+                o.push_str(&format!(
+                    "{ind}    | {} |\n",
+                    row.iter().map(render_toks).collect::<Vec<_>>().join(" | ")
+                ));
+            }
         }
     }
     for tb in tables {
